@@ -211,6 +211,12 @@ func inDomain(kind, s string, e Env) bool {
 
 var witnesses = []scase{
 	{kind: "fields", s: "$y{a,b}", e: Env{"y": "v", "HOME": "/h"}, class: "brace_after_param_name", pinned: true},
+	// pinned regression inputs (ordinary inputs; one or two per mechanism that a seeded change once broke)
+	{kind: "fields", s: "$((1 ^ 3 & 2)) $((6 & 3 ^ 5)) $((1 | 2 ^ 3 & 1))", e: Env{"HOME": "/h"}, pinned: true},
+	{kind: "expand", s: "$((1 ^ 3 & 2)) $((6 & 3 ^ 5))", e: Env{"HOME": "/h"}, pinned: true},
+	{kind: "fields", s: "${x//#/X} ${x//%a/Y} ${x/#/B} ${x/%/E}", e: Env{"x": "#a#", "HOME": "/h"}, pinned: true},
+	{kind: "expand", s: "${x//#/X} ${x//%a/Y}", e: Env{"x": "#a#", "HOME": "/h"}, pinned: true},
+	{kind: "fields", s: "\\~ \\~/x ~\\/z ~ ~/x a~ \"~\"", e: Env{"HOME": "/h"}, pinned: true},
 }
 
 func runSearch(cases []scase, scratch string) []searchRow {
@@ -286,6 +292,10 @@ func main() {
 	switch o.Mode {
 	case "gen":
 		r := hx.Rand(o.Seed, 25)
+		// pinned regression inputs for the code leg (every seed)
+		for _, s := range []string{"\\~ \\~/x ~\\/z ~ ~/x a~ \"~\"", "~/p \"$x\"$x '' $y", "$x\\$\\a${x}\""} {
+			hx.Emit(observe(s, Env{"x": "a b", "HOME": "/h"}))
+		}
 		for i := 0; i < o.N; i++ {
 			s, _ := genStr(r, false, i%3 == 0)
 			if i%11 == 0 { // the malformed stream: unclosed quotes and ${
